@@ -336,6 +336,10 @@ func (fr *Frame) recordCallRet(cc *ssa.CallCommon, res []Term) {
 	top.callCnt[name] = k + 1
 	top.callRets[fmt.Sprintf("%s_%d", name, k)] = res[len(res)-1]
 	top.callReach[fmt.Sprintf("%s_%d", name, k)] = fr.curReach
+	for i, r := range res {
+		top.callRets[fmt.Sprintf("%d_%s_%d", i, name, k)] = r
+		top.callReach[fmt.Sprintf("%d_%s_%d", i, name, k)] = fr.curReach
+	}
 }
 
 func (fr *Frame) bindResults(ins *ssa.Call, res []Term) {
